@@ -77,14 +77,16 @@ def _mk_list(L, gen):
         num = w.int("num") if kind == "int" else None
         if num is not None:
             w.add(num >= 0)
-        ds = [w.real(f"delay{i}") for i in range(L)]
+        # every entry is a number or None ("no delay after this repetition")
+        kinds = [w.choose(["real", "None"], f"delay{i}") for i in range(L)]
+        ds = [w.real(f"delay{i}") if kinds[i] == "real" else None for i in range(L)]
         if gen:
             m = reference_module(I.P, "verif_c28_gen", "def delays(xs):\n    for x in xs:\n        yield x\n")
             di = I.call_value(I.global_lookup(m, "delays"), list(ds))
             dr = I.call_value(I.global_lookup(m, "delays"), list(ds))
         else:
             di, dr = list(ds), list(ds)
-        b, ri, rr = run_repeat(I, Q, num, di, dr, False)
+        b, ri, rr = run_repeat(I, Q, num, di, dr, False, cfg={"module": MS, "ref_file": REF_FILE, "num": kind, "delays": kinds, "gen": gen})
         start(b, w, ri, rr, Q)
         for r in w.results:
             if r.name.startswith(Q + "#"):
